@@ -90,6 +90,11 @@ def medium_text(r, ver):
 
 def rand_string(r, ver):
     k = r.random()
+    if k < 0.012:
+        # a carriage return (open finding F-cr-altered: written raw, read back as LF)
+        s = short_text(r, ver) or "a"
+        p = r.randrange(len(s) + 1)
+        return s[:p] + r.choice(["\r", "\r\n", "\r"]) + s[p:]
     if k < 0.5:
         return short_text(r, ver)
     if k < 0.7:
